@@ -331,6 +331,22 @@ def normalize_tree(tree: ast.AST) -> ast.AST:
         return out
     for fn in [n for n in ast.walk(tree) if isinstance(n, (ast.FunctionDef, ast.AsyncFunctionDef))]:
         fn.body = lock_idiom(fn.body)
+
+    # `if a: if b: S` (no else on either, nothing else in the outer body) is `if a and b: S`
+    class MergeIf(ast.NodeTransformer):
+        def visit_If(self, node):
+            self.generic_visit(node)
+            if not node.orelse and len(node.body) == 1 and isinstance(node.body[0], ast.If) and not node.body[0].orelse:
+                inner = node.body[0]
+                vals = []
+                for t in (node.test, inner.test):
+                    vals += list(t.values) if isinstance(t, ast.BoolOp) and isinstance(t.op, ast.And) else [t]
+                new = ast.If(test=ast.BoolOp(op=ast.And(), values=vals), body=inner.body, orelse=[])
+                ast.copy_location(new.test, node.test)
+                return ast.copy_location(new, node)
+            return node
+    if os.environ.get("SA_NO_MERGEIF") != "1":
+        tree = MergeIf().visit(tree)
     if os.environ.get("SA_COPYPROP") == "1":  # experimental, off: too many rules are written against the temporaries of the pinned source
         _copy_propagate(tree)
     ast.fix_missing_locations(tree)
